@@ -819,10 +819,29 @@ func (s *Sched) doRecv(t *thread, ch *chanState) {
 		}
 		t.result, t.ok, t.resH = s.now, true, uint64(s.now.UnixNano())
 	case len(ch.buf) > 0:
+		wasFull := len(ch.buf) == ch.cap
 		t.result, t.ok = ch.buf[0], true
 		t.resH = ch.bufH[0]
 		ch.buf = ch.buf[1:]
 		ch.bufH = ch.bufH[1:]
+		// as the runtime does: when the buffer was full, the longest-waiting sender's
+		// value takes the freed slot in the same step (len(ch) stays at cap(ch))
+		if w := s.waiter(opSend, ch, t); wasFull && w != nil {
+			var val interface{}
+			var vh uint64
+			if i := caseOf(w, opSend, ch); i >= 0 {
+				c := w.pend.cases[i]
+				val, vh = c.val, c.vh
+				w.selIdx = i
+				w.hist = mix(w.hist, uint64(opSelect)+1, uint64(i))
+			} else {
+				val, vh = w.pend.val, w.pend.valHash()
+			}
+			ch.buf = append(ch.buf, val)
+			ch.bufH = append(ch.bufH, vh)
+			w.pend = &op{kind: opResume}
+			w.hist = mix(w.hist, uint64(opSend)+1, uint64(ch.id)+1)
+		}
 	case ch.closed:
 		t.result, t.ok = nil, false
 		t.resH = 1
